@@ -231,6 +231,10 @@ type Conn struct {
 	mu   sync.Mutex
 	cond *sync.Cond
 
+	rArmed, wArmed     bool // virtual deadlines (see srvEnd.SetDeadline)
+	rExpired, wExpired bool
+	deadlineCalls      int
+
 	in           []byte // pending client->server bytes
 	inLog        []byte // every client byte ever sent (tap)
 	consumed     int    // bytes handed to the server so far
@@ -487,7 +491,14 @@ func (s *srvEnd) Read(p []byte) (int, error) {
 	if len(p) == 0 {
 		return 0, nil
 	}
+	if c.rExpired {
+		return 0, errDeadline
+	}
 	for len(c.in) == 0 {
+		if c.rExpired {
+			c.reading = false
+			return 0, errDeadline
+		}
 		if c.clientClosed {
 			return 0, io.EOF
 		}
@@ -534,6 +545,9 @@ func (s *srvEnd) Write(p []byte) (int, error) {
 	if c.faulted {
 		return 0, c.fault.err()
 	}
+	if c.wExpired {
+		return 0, errDeadline
+	}
 	n := len(p)
 	var err error
 	if f := c.fault; f != nil {
@@ -572,11 +586,54 @@ func (s *srvEnd) Close() error {
 	return nil
 }
 
-func (s *srvEnd) LocalAddr() net.Addr                { return addr("memnet:server") }
-func (s *srvEnd) RemoteAddr() net.Addr               { return s.c.remote }
-func (s *srvEnd) SetDeadline(t time.Time) error      { return nil }
-func (s *srvEnd) SetReadDeadline(t time.Time) error  { return nil }
-func (s *srvEnd) SetWriteDeadline(t time.Time) error { return nil }
+func (s *srvEnd) LocalAddr() net.Addr  { return addr("memnet:server") }
+func (s *srvEnd) RemoteAddr() net.Addr { return s.c.remote }
+
+// Deadlines are virtual: a deadline the server arms (any non-zero time) is remembered, and
+// Conn.ElapseDeadlines lets "a long time" pass: every deadline armed at that moment counts as
+// expired until the server sets it anew. The wall clock is never consulted.
+func (s *srvEnd) SetDeadline(t time.Time) error {
+	_ = s.SetReadDeadline(t)
+	return s.SetWriteDeadline(t)
+}
+
+func (s *srvEnd) SetReadDeadline(t time.Time) error {
+	c := s.c
+	c.mu.Lock()
+	c.rArmed, c.rExpired = !t.IsZero(), false
+	c.deadlineCalls++
+	c.mu.Unlock()
+	return nil
+}
+
+func (s *srvEnd) SetWriteDeadline(t time.Time) error {
+	c := s.c
+	c.mu.Lock()
+	c.wArmed, c.wExpired = !t.IsZero(), false
+	c.deadlineCalls++
+	c.mu.Unlock()
+	return nil
+}
+
+// ElapseDeadlines lets the deadlines that are armed right now expire (see above); it reports
+// which were armed.
+func (c *Conn) ElapseDeadlines() (read, write bool) {
+	c.mu.Lock()
+	defer c.mu.Unlock()
+	read, write = c.rArmed, c.wArmed
+	c.rExpired, c.wExpired = c.rArmed, c.wArmed
+	c.cond.Broadcast()
+	return
+}
+
+// Deadlines reports which deadlines are armed and how often the server set one.
+func (c *Conn) Deadlines() (read, write bool, calls int) {
+	c.mu.Lock()
+	defer c.mu.Unlock()
+	return c.rArmed, c.wArmed, c.deadlineCalls
+}
+
+var errDeadline = &net.OpError{Op: "io", Net: "memnet", Err: timeoutErr{}}
 
 // ---- client side as a net.Conn (needed by crypto/tls) -----------------------
 
